@@ -277,6 +277,15 @@ fn load_index_from_file(file: &mut File) -> Result<(Mphf<Uuid>, u64, u64), Event
     // The records array immediately follows.
     let records_offset = 4 + 8 + 8 + mph_bytes_len as u64;
 
+    // The file is written in the background and never fsynced: a crash can cut it short
+    // anywhere, also inside the records array
+    let records_end = records_offset + n * RECORD_SIZE as u64;
+    if file.metadata()?.len() < records_end {
+        return Err(EventIndexError::CorruptRecord {
+            offset: records_offset,
+        });
+    }
+
     Ok((mph, n, records_offset))
 }
 
